@@ -3,6 +3,7 @@
     the chain contains the six validation steps ([has_tags _ tags6], decidable, re-checked on the chain go2v extracts).
     Decoding (base64, DEFLATE, XML, unknown SAMLEncoding) is the oracle [decode]; its codec part is C18. *)
 From Saml Require Import Base.Bytes Idp.FactTypes Gen.Facts Idp.Sso Proofs.SsoProofs Proofs.SsoAccept.
+From Saml Require Import Gen.Pure Core.TimeCheck.
 From Saml Require Import Xml.SchemaTypes Xml.Schema Gen.Schema Xml.SamlSpec Codec.Base64 Core.WireCodec Core.DecodeVia Proofs.SsoCodec Idp.BuilderTypes Idp.Builder Xml.Unmarshal Idp.AuthnOf.
 
 Section C06.
@@ -111,6 +112,17 @@ Proof. vm_compute. reflexivity. Qed.
 Theorem C06_schema : forallb (conforms xml_schema) saml_spec = true.
 Proof. exact saml_spec_conforms. Qed.
 
+(** THE VALIDITY WINDOW, FROM SOURCE.  go2v translates the closure checkIfRequestTimeIsStillValid returns (time.go) with the clock and
+    time.Parse as oracles; for every clock value, every parser and every pair of strings it returns no error exactly when
+    time_valid holds of the two instants read off the strings (absent when empty, unparsable, or parsed) -- the condition of
+    C06_window.  The handler passes the request's Conditions NotBefore / NotOnOrAfter and the default layout (facts of sso.go). *)
+Theorem C06_time_check_from_source : forall now parse nb noa layout,
+  goerr_is_nil (checkIfRequestTimeIsStillValid now parse nb noa layout) = time_valid now (inst_of parse layout nb) (inst_of parse layout noa).
+Proof. exact time_check_bridge. Qed.
+Theorem C06_time_arguments_from_source :
+  sso_time_call = [("arg0", "thunk:authNRequest.Conditions.NotBefore"); ("arg1", "thunk:authNRequest.Conditions.NotOnOrAfter"); ("arg2", "DefaultTimeFormat")]%string.
+Proof. reflexivity. Qed.
+
 Print Assumptions C06_accept_implies.
 Print Assumptions C06_window.
 Print Assumptions C06_current_tree.
@@ -122,3 +134,5 @@ Print Assumptions C06_request_view.
 Print Assumptions C06_wrong_root_refused.
 Print Assumptions C06_trailing_content_refused.
 Print Assumptions C06_unknown_content_ignored.
+Print Assumptions C06_time_check_from_source.
+Print Assumptions C06_time_arguments_from_source.
